@@ -1,5 +1,6 @@
 ---- MODULE MCCoW ----
 EXTENDS CoW
+MCCodesOne == {2}
 MCCodesQuick == {0, 2, 3, 16, 31}
 MCCodesFull == 0..31
 ====
